@@ -86,4 +86,20 @@ CHECKS['C08'] = {
     'design_ref': 'DESIGN.md §4 C08',
 }
 
+CHECKS['C09'] = {
+    'technique': 'static analysis: provenance rules on ResolveRegistry (id is the slab key; lookup/removal use the id parameter), edge-dominance rule on removal, exactly-once pipeline rule in the bridge, variant-pairing rule on macro-generated Effect::serialize of two probe apps',
+    'text': 'Static rule instances over the MIR of crux_core and of two probe apps that expand crux\'s proc-macros from the current tree: the effect id is the slab key of that effect\'s resolver through a checked conversion, resume looks up, resolves and removes only under the id parameter, removal happens only for unresolvable entries, the bridge registers each core effect exactly once with no adaptor and drops none, and generated Effect::serialize / From<Request<Op>> pair every variant with its same-named Ffi constructor. Necessary conditions over all histories; byte-level equality with the typed core is not decided.',
+    'design_ref': 'DESIGN.md §4 C09',
+}
+CHECKS['C12'] = {
+    'technique': 'static analysis: error-discipline rule over every fallible call of the boundary modules, edge-dominance rule (rejected before the core is touched), frozen table of explicit panics, bounded-slice reader rule',
+    'text': 'Static rule instances over the MIR of crux_core::bridge: every BridgeError/erased_serde/ResolveError/bincode result is propagated to the error return (never unwrapped, asserted or discarded); the core is entered only with the Ok payload of the deserialisation and only after resume returned Ok; every explicit panic in the boundary modules is a row of a frozen table (poisoning, id overflow, a proven unreachable, and the documented out-of-domain id panic); deserialisers read from a bounded slice. Necessary conditions for every byte string; user Deserialize impls and serde_json are outside the rules.',
+    'design_ref': 'DESIGN.md §4 C12',
+}
+CHECKS['C13'] = {
+    'technique': 'static analysis: insert/release pairing table over the long-lived containers (path rules, a typestate rule for the bridge registry, an unconditional-insert rule), field-order rule on Core, container inventory',
+    'text': 'Static rule instances over MIR and HIR tables of the runtime crates: the executor frees a finished task\'s slot on every path and re-stores a pending future; the command slab releases Completed/Cancelled tasks (shared with C07); the bridge registry is analysed as a typestate and two of its three states (Never, Many) have no guaranteed release — recorded known findings, as is the unconditional insert into the cleared-timer set; Core drops user types before the executor; no long-lived container exists outside the pairing table. Timely release for every program is not decided.',
+    'design_ref': 'DESIGN.md §4 C13',
+}
+
 PENDING_REASON = 'check not yet armed in this framework (static rules designed in DESIGN.md §4; implementation in progress)'
